@@ -22,10 +22,13 @@ def run(ctx):
     quick = ctx.tier == "quick"
     dev = ctx.known_devs()
     progs = F.c13_chains(ctx.tier, rnd, excs=("ZeroDivisionError", "RecursionError") if quick else ("ZeroDivisionError", "RecursionError", "KeyError", "KeyboardInterrupt"))
-    # (thorough: 3856 programs; in batches, so that the records of one batch only are in memory -- 16 shards holding a
-    # sixteenth of all records each were killed by the kernel)
-    for b in range(0, len(progs), 600):
-        agg = run_family("C13chain", progs[b:b + 600], NAMES, dev=dev, invariants=INVS, perms=(0, 1) if quick else (0, 1, 2), timeout=1800)
+    # (thorough: 3856 programs with several thousand behaviours each -- more records than the machine can hold at once, and
+    # hours of TLC: 400 of them are drawn, in batches of 100 so that only the records of one batch are in memory)
+    if not quick:
+        progs = rnd.sample(progs, 400)
+    step = len(progs) if quick else 100
+    for b in range(0, len(progs), step):
+        agg = run_family("C13chain", progs[b:b + step], NAMES, dev=dev, invariants=INVS, perms=(0, 1) if quick else (0, 1, 2), timeout=1800)
         ctx.add_family(agg)
     agg = run_family("C13mode", F.c13_modes(ctx.tier, rnd), NAMES, dev=dev, invariants=INVS, perms=(0, 1), timeout=900)
     ctx.add_family(agg)
